@@ -1,4 +1,5 @@
 //! GENERATED on every run (by engine H from the MIR path set of the add-version handler).
 pub const CREATE_FORM_KNOWN: bool = true;
 pub const CREATE_GUARDED: bool = true;
+pub const CREATE_IGNORE_ERR: bool = false;
 pub const CREATE_CALLS: &str = "txn,get_client,new_client,commit";
